@@ -73,6 +73,8 @@ def _walk_own(fn):
     todo = list(fn.body)
     while todo:
         n = todo.pop()
+        if isinstance(n, (ast.FunctionDef, ast.AsyncFunctionDef, ast.ClassDef, ast.Lambda)):
+            continue  # a nested definition at statement level: its body is not this function's
         yield n
         for c in ast.iter_child_nodes(n):
             if isinstance(c, (ast.FunctionDef, ast.AsyncFunctionDef, ast.ClassDef, ast.Lambda)):
@@ -470,6 +472,15 @@ class CallMixin:
             r = self.spec_form(f.id, e, st)
             if r is not None:
                 return r
+        if self.root_spec is not None and self.root_spec.at_call and not st.spec and st.depth == 0:
+            key = ast.unparse(e)
+            if key in self.root_spec.at_call:
+                self.at_call_seen.add(key)
+                s0 = st.copy()
+                s0.old = self.entry_state
+                s0.pc = st.pc
+                for clause in self.root_spec.at_call[key]:
+                    self.oblige(st, "at-call", f"{key}: {clause}", self.spec_bool(clause, s0), e)
         # evaluate callee
         out = []
         for s, fv in self.ev(f, st):
@@ -608,6 +619,10 @@ class CallMixin:
             raise EngineError(f"no such function {target}")
         fs = self.reg.funs.get(target)
         self.note_module(mod)
+        if fs is not None and fs.until:
+            if fs.callers is None:
+                raise EngineError(f"call to {target}, whose contract covers only a prefix of its body (no callers= view)")
+            return self.call_contract(fs.callers, args, kwargs, st, node, fnode=fnode, mod=mod)
         if fs is not None and not fs.inline:
             return self.call_contract(fs, args, kwargs, st, node, fnode=fnode, mod=mod)
         decos = [ast.unparse(d) for d in fnode.decorator_list]
@@ -737,6 +752,11 @@ class CallMixin:
                 raise EngineError("at_entry() outside a loop invariant")
             s = st.loop_entries[-1].copy()
             s.pc = st.pc
+            s.guards = list(st.guards)
+            s.store = dict(s.store)
+            for k, v in st.store.items():  # variables bound by enclosing quantifiers stay visible
+                if k not in s.store:
+                    s.store[k] = v
             r = self.evs(e.args[0], s)
             st.pc = s.pc
             return [(st, r)]
